@@ -76,7 +76,7 @@ _p("C14", modules=["cipher_suites", "record_protection", "quic_session_c", "keys
    design_ref="DESIGN.md 4 C14", explanation="", assumptions=[], trusted_base=["specs/iana_tls_cipher_suites.json is a faithful copy of the IANA registry"],
    not_under_contract=["Decryptor.decrypt dispatch totality (dispatch_total) is part of C01's contracts"])
 
-_p("C10", modules=["ports", "main_run"], level="proof",
+_p("C10", modules=["ports", "main_run", "quic_output"], level="proof",
    level_text="Each sentence of the property is a postcondition proved for all ports and ALL port maps (an uninterpreted map): both output builders compute "
               "server_port' = keep ? p : (p in map ? map[p] : 8080) and leave the client port alone; get_port_map turns 'a:b' items into {a: b}; bare -m stores "
               "['443:8080'] and clears keep_original_ports; the real add_argument/set_defaults calls give -m the SUPPRESS default and keep_original_ports=True; "
@@ -125,7 +125,7 @@ _p("C06", modules=["tcp_output", "quic_output", "framing", "framing_unbounded", 
    composition_assumptions=["concatenating per-record frame groups whose first sequence number equals 1 + bytes sent before yields gap-free, non-overlapping sequence space per direction"],
    not_under_contract=["main.run writer loop (bytes(buf), ts) -> dpkt (covered by the run() contracts of C18/C11 when built)"])
 
-_p("C07", modules=["tcp_output", "quic_output", "framing", "framing_unbounded", "ports", "robustness", "packet_c", "main_run"], level="other",
+_p("C07", modules=["tcp_output", "quic_output", "framing", "framing_unbounded", "ports", "robustness", "packet_c", "main_run", "container_unbounded"], level="other",
    technique="contract-based deductive verification (pyvc) + one bounded stand-in",
    level_text="Proved on the real bodies: every frame the TLS builder emits is oriented sender->receiver with the session's MACs, IPs (IP version as the session's) and "
               "ports, the client port unchanged (tcp_out.* orientation clauses, all 22 scapy constructions); data frame j of a record carries the timestamp of the j-th packet "
@@ -140,7 +140,7 @@ _p("C07", modules=["tcp_output", "quic_output", "framing", "framing_unbounded", 
    trusted_base=["scapy layer constructors", "dpkt readers/writers (timestamp resolution)"], bounded=BOUNDED_FRAMING,
    not_under_contract=["dpkt_dsb.Reader timestamp arithmetic (C12)"])
 
-_p("C05", modules=["framing", "framing_unbounded", "framing_history", "main_run", "prefix", "ports"], level="other",
+_p("C05", modules=["framing", "framing_unbounded", "framing_history", "main_run", "prefix", "ports", "packet_c"], level="other",
    technique="contract-based deductive verification: unbounded loop contract (four invariants, two variants, quantifier-free VCs over spec-function lists) for the framing "
              "functions + unbounded dedupe contract; the capture-order history is a bounded stand-in",
    level_text="UNBOUNDED (any number of buffered segments, any payloads, any number of records): extract_server_buf / extract_client_buf release records iff the sorted buffer is one "
@@ -248,7 +248,7 @@ _p("C03", modules=["robustness", "demux", "ports", "quic_output", "main_run", "q
    bounded=[{"function": "QuicSession.set_tls_decryptors (key-state invariant)", "bound": "each of the five QUIC-relevant labels at most once per connection (all 32 subsets), one foreign label", "counted_as": "bounded in the multiplicity of labels, unbounded in all values"}],
    not_under_contract=["extract_quic_packet in the QUICK tier (thorough only)"])
 
-_p("C01", modules=["record_protection", "framing", "framing_unbounded", "framing_history", "keys", "cipher_suites", "tcp_output", "robustness", "metadata", "compose_tls", "ports"], level="other",
+_p("C01", modules=["record_protection", "framing", "framing_unbounded", "framing_history", "keys", "cipher_suites", "tcp_output", "robustness", "metadata", "compose_tls", "ports", "packet_c"], level="other",
    technique="contract-based deductive verification of every link of the TLS pipeline (per-function contracts; primitives uninterpreted); composition on paper",
    level_text="The pipeline is decomposed into links and each link's obligation is discharged on the real code: framing (records released by one extract call = frame(buffered stream), UNBOUNDED loop contract; capture-order history BOUNDED); ServerHello parsing "
               "(random, suite, compression, extension map incl. zero-length last extensions, version rule; bounded to 2 extensions); suite resolution (C14, exhaustive); key "
